@@ -342,6 +342,33 @@ def overlay_templates(keys):
     return out
 
 
+def occupancy_templates(keys):
+    """Hand-written legal NomtApi behaviours in which merkle pages are created in one overlay and emptied again in a
+    descendant before either is committed (then both are committed in order), next to the same history through plain
+    sessions: the hash-table occupancy must return to what the decoder counts (C19)."""
+    N = {k: "NoCh" for k in keys}
+    a, b, c = keys[0], keys[1], keys[2]
+    out = []
+    for second in ({a: "Nil"}, {a: "Nil", b: "v1"}, {a: "v2", b: "Nil"}):
+        for pre in (None, {b: "v1"}, {a: "v2", c: "v1"}):
+            beh = []
+            if pre:
+                beh += [dict(a="Begin", s=1, chain=[], res="Ok"), dict(a="Finish", s=1, f=1, w=dict(N, **pre)), dict(a="Commit", f=1, res="Ok")]
+            beh += [dict(a="Begin", s=1, chain=[], res="Ok"), dict(a="Finish", s=1, f=1, w=dict(N, **{a: "v1", c: "v2"})),
+                    dict(a="IntoOverlay", f=1, o=1),
+                    dict(a="Begin", s=1, chain=[1], res="Ok"), dict(a="Finish", s=1, f=1, w=dict(N, **second)),
+                    dict(a="IntoOverlay", f=1, o=2),
+                    dict(a="Begin", s=1, chain=[2, 1], res="Ok"), dict(a="Finish", s=1, f=1, w=dict(N, **{c: "Nil"})),
+                    dict(a="IntoOverlay", f=1, o=3),
+                    dict(a="OverlayCommit", o=1, res="Ok"), dict(a="OverlayTryCommit", o=2, res="Ok"),
+                    dict(a="OverlayCommit", o=3, res="Ok"),
+                    dict(a="Begin", s=1, chain=[], res="Ok"), dict(a="Finish", s=1, f=1, w={k: "Nil" for k in keys}),
+                    dict(a="Commit", f=1, res="Ok"),
+                    dict(a="Close"), dict(a="Reopen")]
+            out.append(beh)
+    return out
+
+
 def rejected_templates(keys):
     """Hand-written legal NomtApi behaviours in which an attempt is REJECTED in the middle of the commit of an overlay
     chain: a stale session changeset (blocking / non-blocking), a stale sibling overlay, a rollback that cannot be
